@@ -135,6 +135,25 @@ Op Gen::primerFor(const Op &op) {
         pr.dbls[0] = std::max(-PI / 2, std::min(PI / 2, pr.dbls[0] + dist * sin(ang)));
         pr.dbls[1] = wrapLng(pr.dbls[1] + dist * cos(ang) / std::max(0.05, cos(pr.dbls[0])));
         if (pr.fn == FN_latLngToCell && !pr.ints.empty() && r.chance(0.5)) pr.ints[0] = (int64_t)r.below(16);
+    } else if (!pr.loops.empty() && pr.loops[0].size() >= 3) {
+        // the caller re-uses its polygon buffers: same object, same counts, same first and last vertex, other
+        // vertices edited in place (the simulator hands every call of a task its inputs at the same addresses)
+        auto &outer = pr.loops[0];
+        double f = r.chance(0.5) ? r.uniform(0.3, 0.8) : r.uniform(1.2, 3.0);
+        LatLng a = outer.front();
+        for (size_t i = 1; i + 1 < outer.size(); i++) {
+            if (!std::isfinite(outer[i].lat) || !std::isfinite(outer[i].lng)) continue;
+            double dl = outer[i].lng - a.lng;
+            if (dl > PI) dl -= 2 * PI;
+            if (dl < -PI) dl += 2 * PI;
+            outer[i].lat = std::max(-PI / 2, std::min(PI / 2, a.lat + (outer[i].lat - a.lat) * f));
+            outer[i].lng = wrapLng(a.lng + dl * f);
+        }
+        if (f > 1.2) {
+            // a larger polygon at the same resolution may exceed the harness's size bound: keep the primer cheap
+            pr.loops.resize(1);
+            if (!pr.ints.empty() && pr.ints[0] > 2) pr.ints[0] -= 2;
+        }
     } else if (!pr.cells.empty() && pr.loops.empty() && pr.cells.size() <= 2) {
         H3Index c = pr.cells[0];
         double u = r.unit();
@@ -352,6 +371,29 @@ Op Gen::compactOp() {
             return op;
         }
     }
+    // very large sets (117 649 .. 352 947 cells: complete 6-level sub-trees): whatever a change does "only for big
+    // inputs" (megabyte-sized scratch arrays) has to happen here
+    if (r.chance(boost ? 0.02 : 0.004)) {
+        int R = (int)r.range(6, 15);
+        int parents = boost ? (int)r.range(1, 3) : (int)r.range(1, 2);
+        for (int i = 0; i < parents; i++) {
+            H3Index p = r.chance(0.3) ? pentagon(R - 6) : randCell(R - 6);
+            std::vector<H3Index> ch = refChildren(p, R);
+            op.cells.insert(op.cells.end(), ch.begin(), ch.end());
+        }
+        {
+            std::set<H3Index> seen;
+            std::vector<H3Index> u;
+            for (auto c : op.cells)
+                if (seen.insert(c).second) u.push_back(c);
+            op.cells.swap(u);
+        }
+        int drop = (int)r.range(0, 3);
+        for (int i = 0; i < drop && !op.cells.empty(); i++) op.cells.erase(op.cells.begin() + r.below(op.cells.size()));
+        if (r.chance(0.5)) r.shuffle(op.cells);
+        op.tag = "huge-subtrees";
+        return op;
+    }
     // whole base cells: compaction proceeds all the way to resolution 0
     if (r.chance(0.1)) {
         int R = r.chance(0.7) ? 1 : 2;
@@ -500,6 +542,16 @@ Op Gen::diskOp(bool distancesFn) {
     } else {
         origin = damaged(r.chance(0.5) ? pentagon(res) : randCell(res));
         op.tag = "damaged";
+    }
+    if (op.tag == "damaged" && r.chance(0.3)) {
+        // an invalid origin fails the fast traversal at once and the fallback returns at its first step, so
+        // very large k is cheap here: the fallback's scratch array gets as large as the harness's buffers allow
+        k = (int)r.range(51, 1100);
+        // (a bit-flipped valid cell is usually still traversable, and then k in the hundreds costs minutes: only
+        // indexes whose base cell number is out of range are used here)
+        static const H3Index hard[] = {0x7fffffffffffffffULL, 0xffffffffffffffffULL, 0x08ffffffffffffffULL};
+        origin = r.chance(0.5) ? hard[r.below(3)] : (randCell(res) | ((H3Index)0x7f << 45));
+        op.tag = "invalid-origin-huge-k";
     }
     op.cells.push_back(origin);
     op.ints.push_back(k);
@@ -881,7 +933,9 @@ Op Gen::c17OpFor(int fn) {
             double u = r.unit();
             if (u > 0.75) maxCells = 3000;
             if (u > 0.97) maxCells = 30000;
-            if (boost && u > 0.995) maxCells = 200000;
+            if (boost && u > 0.985) maxCells = 200000;
+            // size estimates in the millions (multi-megabyte scratch arrays): rare, but present in both tiers
+            if (u > (boost ? 0.994 : 0.998)) maxCells = boost ? 2000000 : 300000;
             return polygonOp(fn, maxCells);
         }
     }
@@ -991,6 +1045,57 @@ std::vector<H3Index> Gen::cellSet(int maxCells, std::string &tag) {
         cells.assign(acc.begin(), acc.end());
         if (r.chance(0.7)) r.shuffle(cells);
         tag = "distorted-singles-" + std::to_string(cells.size()) + " ";
+        return cells;
+    }
+    if (r.chance(0.05)) {
+        // exact archipelago: exactly n well-separated components (single cells and rings with a one-cell hole), n at and
+        // around the sizes a fixed-capacity scratch array would have (..., 15, 16, 17, ..., 63, 64, 65, ...)
+        static const int NS[] = {7, 8, 9, 15, 16, 17, 31, 32, 33, 63, 64, 65, 127, 128, 129};
+        int n = NS[r.below(maxCells >= 2000 ? 15 : 12)];
+        H3Index anchor = r.chance(0.3) ? nearPentagon(res, 6) : randCell(res);
+        std::vector<H3Index> field = refDisk(anchor, 30);
+        r.shuffle(field);
+        std::vector<H3Index> picked;
+        for (auto c : field) {
+            if ((int)picked.size() >= n) break;
+            bool ok = true;
+            for (auto p : picked) {
+                int64_t d = 0;
+                if (REF.gridDistance(p, c, &d) != E_SUCCESS || d < 4) {
+                    ok = false;
+                    break;
+                }
+            }
+            if (ok) picked.push_back(c);
+        }
+        std::set<H3Index> acc;
+        int rings = 0;
+        for (size_t i = 0; i < picked.size(); i++) {
+            bool ring = i == 0 || r.chance(0.3);  // at least one hole
+            if (!ring) {
+                acc.insert(picked[i]);
+            } else {
+                rings++;
+                for (auto x : refDisk(picked[i], 1))
+                    if (x != picked[i]) acc.insert(x);
+            }
+        }
+        cells.assign(acc.begin(), acc.end());
+        if (r.chance(0.7)) r.shuffle(cells);
+        tag = "exact-archipelago-" + std::to_string(picked.size()) + "-components-" + std::to_string(rings) + "-rings ";
+        return cells;
+    }
+    if (maxCells >= 12000 ? r.chance(0.01) : r.chance(0.0008)) {
+        // very many isolated cells (tens of thousands of components, > 130 000 edges): whatever grows or rehashes "only
+        // for big graphs" has to happen here
+        int n = (int)r.range(22000, maxCells >= 12000 ? 40000 : 26000);
+        // (resolutions 5..10 only: from resolution 12 on the library's vertex hash degenerates to a few buckets and
+        // a set of this size takes minutes on the unchanged tree)
+        int fres = (int)r.range(5, 10);
+        std::set<H3Index> acc;
+        while ((int)acc.size() < n) acc.insert(randCell(fres));
+        cells.assign(acc.begin(), acc.end());
+        tag = "isolated-" + std::to_string(n) + " ";
         return cells;
     }
     if (r.chance(0.06)) {
@@ -1308,6 +1413,12 @@ Op Gen::anyOp(int scale, int forcedFn) {
             if (r.chance(0.1)) op.str = "zzz";
             if (r.chance(0.05)) op.str = "";
             if (r.chance(0.05)) op.str += "ffffffffffffffffffff";
+            if (r.chance(0.08)) {
+                // boundary values of the 64-bit range in the spellings a hex parser accepts
+                static const char *B[] = {"ffffffffffffffff", "FFFFFFFFFFFFFFFF", "-1", "0xffffffffffffffff", "0", "8000000000000000",
+                                          "7fffffffffffffff", "10000000000000000", "-0", "+8", "fffffffffffffffe"};
+                op.str = B[r.below(sizeof B / sizeof B[0])];
+            }
             if (r.chance(0.12)) op.str += r.chance(0.5) ? " 7" : " trailing words";  // text after the number
             if (r.chance(0.04)) op.str = "  " + op.str;
             break;
